@@ -228,7 +228,7 @@ retry:
 // Idioms exercises everyday concurrency idioms the instrumenter must get right: a range
 // over a channel with the per-iteration copy `j := j`, timers created inside select
 // headers, a caller that can only proceed through a timeout, a spin on an atomic with an
-// empty loop body, clock and sleep used through function values. It returns 8*k.
+// empty loop body, clock and sleep used through function values. It returns 10*k.
 var (
 	nowFn   = time.Now
 	sleepFn = time.Sleep
@@ -333,5 +333,28 @@ func Idioms(k int) int {
 		total += k
 	}
 	rl.Unlock()
+	// the channel expression of a range / of a receive case is a CALL: evaluated once
+	gens := 0
+	gen := func(n int) <-chan int {
+		gens++
+		c := make(chan int, n)
+		for i := 0; i < n; i++ {
+			c <- 1
+		}
+		close(c)
+		return c
+	}
+	for v := range gen(k) {
+		total += v
+	}
+	select {
+	case v, ok := <-gen(1):
+		if ok {
+			total += v * k
+		}
+	}
+	if gens != 2 {
+		total = -1000
+	}
 	return total
 }
